@@ -84,6 +84,16 @@ let handle (line : string) : string =
   | "US" :: x :: [] -> hex_of_z (unsetSign (z_of_hex x))
   | "P32" :: a :: b :: c :: [] -> hex_of_z (pivot32_Calc (z_of_hex a) (z_of_hex b) (z_of_hex c))
   | "RND" :: p :: a :: [] -> hex_of_z ((if p = "P" then power2Mod_RoundBuckets else divMod_RoundBuckets) (z_of_hex a))
+  | "SZ" :: p :: a :: b :: [] ->
+      (* Size(entries, multiplier) = sizeof(Entry) * RoundBuckets(max(entries + 1, (uint64) (multiplier * (float) entries)));
+         by C20_probing_capacity_throws / C20_probing_refines_map a table with more buckets than entries accepts and returns them all *)
+      let entries = int_of_z (z_of_hex a) in
+      let mult = Int32.float_of_bits (Int32.of_string ("0x" ^ b)) in
+      let single x = Int32.float_of_bits (Int32.bits_of_float x) in
+      let prod = single (mult *. single (float_of_int entries)) in
+      let want = max (entries + 1) (int_of_float prod) in
+      let buckets = if p = "P" then int_of_z (power2Mod_RoundBuckets (z_of_int want)) else want in
+      Printf.sprintf "%x %s" buckets (if buckets > entries then "ok" else "THROW")
   | "PT" :: p :: b :: ops ->
       let buckets = int_of_z (z_of_hex b) in
       let pol = if p = "P" then Power2Mod else DivMod in
